@@ -12,7 +12,7 @@ import (
 func decConfigs(tier string) []DecConfig {
 	maxB := 6
 	if tier == "thorough" {
-		maxB = 9
+		maxB = 8
 	}
 	var out []DecConfig
 	for b := maxB; b >= 2; b-- { // largest state spaces first: better balance on the worker pool
@@ -51,7 +51,10 @@ func decConfigs(tier string) []DecConfig {
 
 func decDepth(tier string, level int) (depth int, maxBytes int, stateCap int64) {
 	if tier == "thorough" {
-		return 6, 64, 4_000_000
+		if level == 1 {
+			return 5, 64, 2_000_000
+		}
+		return 5, 64, 2_000_000
 	}
 	if level == 1 {
 		return 5, 48, 1_000_000
